@@ -111,7 +111,7 @@ theorem range_transitions (s : Spec) (z : Zone) (hz : IsZoneOf s z) (y : Int) (h
   simp only [TZ.ofTzStr, this]
   congr 2 <;> omega
 
-/-- **C08 (main statement), partial: string → transitions → lookup = POSIX.**
+/-- **C08 (main statement), mid-year form** (no margin needed, but the instant must not be within an offset of New Year).
     `z` is the zone of the spec `s` (positive saving), viewed as a `tzrangebase`
     (`TZ.ofTzStr z`, whose `transitions` are the model's `TzStr.transitions`).  `t` is a UTC instant
     (seconds since the epoch) of a year `Y` in 3..9997 such that
@@ -122,7 +122,7 @@ theorem range_transitions (s : Spec) (z : Zone) (hz : IsZoneOf s z) (y : Int) (h
       year in `utcoffset`; where the two differ is D-C04y's class).
     Then the converted datetime reports POSIX's offset, `dst() = saving` exactly when POSIX says
     daylight time, and the matching abbreviation. -/
-theorem tzstr_posix_partial (s : Spec) (z : Zone) (hz : IsZoneOf s z)
+theorem tzstr_posix_midyear_partial (s : Spec) (z : Zone) (hz : IsZoneOf s z)
     (hs : ValidRule s.startRule) (he : ValidRule s.endRule) (ht : InRangeTimes s)
     (hsav : s.stdOff < s.dstOff) (t Y : Int) (hY : TZ.yearOf t = Y) (hY1 : 3 ≤ Y) (hY2 : Y ≤ 9997)
     (i0 : TZ.Inside s (Y - 1)) (i1 : TZ.Inside s Y) (i2 : TZ.Inside s (Y + 1))
@@ -167,6 +167,90 @@ theorem tzstr_posix_partial (s : Spec) (z : Zone) (hz : IsZoneOf s z)
       simp only [c, c', if_true, Bool.and_eq_true, decide_eq_true_eq]; omega
     · have c' : ¬ (startUtc s Y + s.stdOff - TZ.epochShift - s.stdOff < endUtc s Y + s.stdOff - TZ.epochShift - s.stdOff) := by omega
       simp only [c, c', if_false, ← Bool.decide_and, Bool.not_eq_true', decide_eq_false_iff_not]; omega
+  rw [hd] at hi
+  obtain ⟨r1, r2, r3⟩ := TZ.RangeZone.answers_of_isdst _ w _ hi
+  refine ⟨w, hf, ?_, ?_, ?_⟩
+  · rw [r1, hstd, hdst]; rfl
+  · rw [r2, hsv]
+  · rw [r3]; rfl
+
+/-- **C08 (main statement), partial: string → transitions → lookup = POSIX.**
+    `z` is the zone of the spec `s` (positive saving) viewed as a `tzrangebase` (`TZ.ofTzStr z`,
+    whose `transitions` are the model's `TzStr.transitions`).  For EVERY UTC instant `t` (seconds
+    since the epoch) of a year `Y` in 3..9997 such that the rule pair is away from the year
+    boundary — in `Y−1`, `Y`, `Y+1` both transitions keep a margin `m` from both ends of their own
+    UTC year, where `m` bounds `|stdOff|`, `|dstOff|` and the saving, and come in the same order
+    (either hemisphere) — the converted datetime reports POSIX's offset, `dst() = saving` exactly
+    when POSIX says daylight time, and the matching abbreviation.  Instants next to New Year are
+    included: there `fromutc` and `utcoffset` consult different years' pairs, which the margin
+    makes agree (`TZ.decisions_cohere`); without the margin that is D-C04y. -/
+theorem tzstr_posix_partial (s : Spec) (z : Zone) (hz : IsZoneOf s z)
+    (hs : ValidRule s.startRule) (he : ValidRule s.endRule) (ht : InRangeTimes s)
+    (hsav : s.stdOff < s.dstOff) (t Y m : Int) (hY : TZ.yearOf t = Y) (hY1 : 3 ≤ Y) (hY2 : Y ≤ 9997)
+    (m1 : -m ≤ s.stdOff) (m2 : s.stdOff ≤ m) (m3 : -m ≤ s.dstOff) (m4 : s.dstOff ≤ m)
+    (m5 : s.dstOff - s.stdOff ≤ m)
+    (i0 : TZ.InsideM s (Y - 1) m) (i1 : TZ.InsideM s Y m) (i2 : TZ.InsideM s (Y + 1) m)
+    (o0 : startUtc s (Y - 1) < endUtc s (Y - 1) ↔ startUtc s Y < endUtc s Y)
+    (o2 : startUtc s (Y + 1) < endUtc s (Y + 1) ↔ startUtc s Y < endUtc s Y) :
+    ∃ w, (TZ.ofTzStr z).fromutc t = .ok w ∧
+      (TZ.ofTzStr z).utcoffset w = .ok (Posix.offsetAt s (t + TZ.epochShift)) ∧
+      (TZ.ofTzStr z).dst w = .ok (if Posix.isDstAt s (t + TZ.epochShift) then s.dstOff - s.stdOff else 0) ∧
+      (TZ.ofTzStr z).tzname w = .ok (if Posix.isDstAt s (t + TZ.epochShift)
+        then TZ.abbrBytes z.dstAbbr else TZ.abbrBytes z.stdAbbr) := by
+  have hm : 0 < m := by omega
+  have htr := range_transitions s z hz Y (by omega) (by omega) hs he ht
+  have z1 := hz.1
+  have hstd : (TZ.ofTzStr z).stdOff = s.stdOff := hz.2.1
+  have hdst : (TZ.ofTzStr z).dstOff = s.dstOff := hz.2.2.1
+  have hsv : (TZ.ofTzStr z).saving = s.dstOff - s.stdOff := by unfold TZ.RangeZone.saving; rw [hstd, hdst]
+  have hyT : 86400 ≤ t + TZ.epochShift := by
+    by_cases c : 86400 ≤ t + TZ.epochShift
+    · exact c
+    · exfalso
+      have hdiv : (t + TZ.epochShift) / 86400 ≤ 0 := by omega
+      have h1 := TZ.fromOrdinal_year_nonpos _ hdiv
+      rw [← TZ.yearOf_shift] at h1
+      omega
+  obtain ⟨b1, b2⟩ := (TZ.yearOf_iff t Y hyT).mp hY
+  -- the wall-clock years' pairs
+  have wall : ∀ o, (o = s.stdOff ∨ o = s.dstOff) → ∃ on' off',
+      (TZ.ofTzStr z).transitions (TZ.yearOf (t + o)) = some (on', off') ∧
+      TZ.RangeZone.naiveIsdst (t + o) (on', off') = TZ.RangeZone.naiveIsdst (t + o)
+        (startUtc s Y + s.stdOff - TZ.epochShift, endUtc s Y + s.stdOff - TZ.epochShift) ∧
+      (decide (off' ≤ t + o) && decide (t + o < off' + (s.dstOff - s.stdOff))) =
+      (decide (endUtc s Y + s.stdOff - TZ.epochShift ≤ t + o) &&
+        decide (t + o < endUtc s Y + s.stdOff - TZ.epochShift + (s.dstOff - s.stdOff))) := by
+    intro o ho
+    obtain ⟨y', ⟨p1, p2⟩, hy', hn, ha⟩ := TZ.decisions_cohere s m Y (t + TZ.epochShift) o b1 b2 hsav ho
+      m1 m2 m3 m4 m5 i0 i1 i2 o0 o2
+    have hy'1 : 2 ≤ y' := by omega
+    have hy'2 : y' ≤ 9998 := by omega
+    have hge := TZ.ys_ge y' (by omega)
+    have hyo : TZ.yearOf (t + o) = y' := by
+      rw [TZ.yearOf_iff (t + o) y' (by omega)]
+      exact ⟨by omega, by omega⟩
+    refine ⟨_, _, by rw [hyo]; exact range_transitions s z hz y' hy'1 hy'2 hs he ht, ?_, ?_⟩
+    · have e : t + o = (t + TZ.epochShift + o) - TZ.epochShift := by omega
+      rw [e, TZ.naiveIsdst_shift, TZ.naiveIsdst_shift]; exact hn
+    · have e : t + o = (t + TZ.epochShift + o) - TZ.epochShift := by omega
+      rw [e, TZ.amb_shift, TZ.amb_shift]; exact ha
+  obtain ⟨on₁, off₁, t₁, n₁, a₁⟩ := wall s.stdOff (Or.inl rfl)
+  obtain ⟨on₂, off₂, t₂, n₂, a₂⟩ := wall s.dstOff (Or.inr rfl)
+  obtain ⟨w, hf, _, hi⟩ := TZ.RangeZone.isdst_fromutc (TZ.ofTzStr z) t _ _ on₁ off₁ on₂ off₂
+    (by rw [hsv]; omega) z1 (by rw [hY]; exact htr) (by rw [hstd]; exact t₁) (by rw [hdst]; exact t₂)
+    (by rw [hstd]; exact n₁) (by rw [hstd, hsv]; exact a₁) (by rw [hdst]; exact n₂) (by rw [hdst, hsv]; exact a₂)
+  have hposix := TZ.naive_eq_posix s Y (t + TZ.epochShift) b1 b2 (by rw [← TZ.yearOf_shift]; exact hY)
+    (i0.inside hm) (i1.inside hm) (i2.inside hm) o0 o2
+  have hd : TZ.RangeZone.naiveIsdst t
+      (startUtc s Y + s.stdOff - TZ.epochShift - (TZ.ofTzStr z).stdOff,
+       endUtc s Y + s.stdOff - TZ.epochShift - (TZ.ofTzStr z).stdOff) = Posix.isDstAt s (t + TZ.epochShift) := by
+    rw [← hposix, hstd]
+    have e : t = (t + TZ.epochShift) - TZ.epochShift := by omega
+    have e1 : startUtc s Y + s.stdOff - TZ.epochShift - s.stdOff = startUtc s Y - TZ.epochShift := by omega
+    have e2 : endUtc s Y + s.stdOff - TZ.epochShift - s.stdOff = endUtc s Y - TZ.epochShift := by omega
+    rw [e1, e2]
+    conv => lhs; rw [e]
+    exact TZ.naiveIsdst_shift _ _ _ _
   rw [hd] at hi
   obtain ⟨r1, r2, r3⟩ := TZ.RangeZone.answers_of_isdst _ w _ hi
   refine ⟨w, hf, ?_, ?_, ?_⟩
@@ -264,8 +348,11 @@ def usZone : Zone :=
                       start := some a, «end» := some b, hasdst := true }
   | _, _ => default
 example : IsZoneOf usSpec usZone := ⟨rfl, rfl, rfl, _, _, rfl, rfl, rfl, rfl⟩
-example : TZ.Inside usSpec 2023 ∧ TZ.Inside usSpec 2024 ∧ TZ.Inside usSpec 2025 := by
-  unfold TZ.Inside TZ.ys; decide
+example : TZ.InsideM usSpec 2023 18000 ∧ TZ.InsideM usSpec 2024 18000 ∧ TZ.InsideM usSpec 2025 18000 := by
+  unfold TZ.InsideM TZ.ys; decide
+/-- an instant next to New Year (2024-12-31T22:00Z: UTC year 2024, both wall readings still 2024) and
+    one whose UTC year and wall year differ (2025-01-01T02:00Z reads 2024-12-31 21:00 EST) -/
+example : TZ.yearOf 1735696800 = 2025 ∧ TZ.yearOf (1735696800 + usSpec.stdOff) = 2024 := by decide
 example : TZ.yearOf 1719835200 = 2024 ∧ TZ.yearOf (1719835200 + usSpec.stdOff) = 2024 ∧
     TZ.yearOf (1719835200 + usSpec.dstOff) = 2024 := by decide
 example : Posix.isDstAt usSpec (1719835200 + TZ.epochShift) = true := by decide
